@@ -222,4 +222,24 @@ theorem deliverAll_length : ∀ (p : List GUpd) {v : List Id} {q : List Upd} {m 
     obtain ⟨x, v', xs, hd, hr, rfl⟩ := deliverAll_cons_some h
     simp [deliverAll_length us hr]
 
+/-! ### takeWhile / drop -/
+
+theorem takeWhile_all {α} (p : α → Bool) : (l : List α) → ∀ x ∈ l.takeWhile p, p x = true
+  | [], x, h => by simp at h
+  | a :: l, x, h => by
+    simp only [List.takeWhile] at h
+    split at h
+    · rcases List.mem_cons.mp h with rfl | h'
+      · assumption
+      · exact takeWhile_all p l x h'
+    · simp at h
+
+theorem takeWhile_drop {α} (p : α → Bool) : (l : List α) → l.takeWhile p ++ l.drop (l.takeWhile p).length = l
+  | [] => by simp
+  | a :: l => by
+    simp only [List.takeWhile]
+    split
+    · simp [takeWhile_drop p l]
+    · simp
+
 end GoImap.TrackerLemmas
